@@ -140,8 +140,15 @@ def _task(args):
             zclauses = []
             for cname, f in clauses:
                 zclauses.append((cname, core._zb(f)))
+            # fast path: one query for the conjunction of all clauses; only a failing path is split per clause
+            nontrivial = [zf for (cname, f), (_c, zf) in zip(clauses, zclauses) if f is not True]
+            all_hold = False
+            if nontrivial and not kf_regions:
+                ok_any, _m = eng._check(z3.Not(z3.And(nontrivial)))
+                all_hold = not ok_any
+            for cname, f in clauses:
                 res["obligations"] += 1
-                if f is True:
+                if f is True or all_hold:
                     continue
                 zf = core._zb(f)
                 neg = z3.Not(zf)
@@ -272,7 +279,10 @@ def run_property(pid, tier, only=None, jobs=None, seed=0, verbose=True):
                    "certificates": 0, "max_depth": 0, "wall_s": 0.0, "sample_pc": None}
             t_h = time.time()
             pending = []
+            only_v = os.environ.get("SX_VARIANTS")
             for vidx in range(len(variants)):
+                if only_v and str(vidx) not in only_v.split(","):
+                    continue
                 pending.append(pool.apply_async(_task, ((h.hid, vidx, [], 6, seed),)))
             per_variant_classes = [dict() for _ in variants]
             while pending:
